@@ -33,7 +33,9 @@ func typeOpsFor(t *pgen.Type, form string) []string {
 	case pgen.KPtr, pgen.KSlice, pgen.KMap:
 		ops = append(ops, "deepcopy")
 	}
-	if t.Underlying().K == pgen.KMap {
+	if t.K == pgen.KMap {
+		ops = append(ops, "keys", "sortkeys", "fmapkeys")
+	} else if t.Underlying().K == pgen.KMap {
 		ops = append(ops, "keys", "sortkeys")
 	}
 	ops = append(ops, "equalclone")
@@ -302,6 +304,8 @@ func opPlugins(op string, t *pgen.Type) []string {
 		return []string{op + "|" + k}
 	case "sortkeys":
 		return []string{"keys|" + k, "sort|[]" + t.Underlying().Key.Expr("", nil)}
+	case "fmapkeys":
+		return []string{"keys|" + k, "fmap|func(" + t.Underlying().Key.Expr("", nil) + ")bool,[]" + t.Underlying().Key.Expr("", nil)}
 	case "equalclone":
 		return []string{"equal2|" + k, "clone|" + k}
 	case "min2", "max2":
